@@ -19,6 +19,9 @@ type FS struct {
 // Key normalises a location the way a file system / HTTP client would see it.
 func Key(u *url.URL) string {
 	if u.Scheme == "" && u.Host == "" {
+		if u.RawQuery != "" {
+			return path.Clean(u.Path) + "?" + u.RawQuery // a query belongs to the location
+		}
 		return path.Clean(u.Path)
 	}
 	if u.Scheme == "file" {
